@@ -31,6 +31,7 @@ package ro
 //@   inline ShareWithConfig$1$1 ShareWithConfig$1$3$1
 //@   track source.* currentSubject.* config.* sourceSubscription.* call.NewSubscription call.NewSubscriber NewSubscription().* getOrCreateSubject()#0.* getOrCreateSubject()#1.*
 //@   ensures [counts-one-subscriber|C11] atunlock(refCount) == atlock(refCount) + 1
+//@   ensures [a-subscriber-that-joins-a-kept-generation-leaves-its-termination-marks|C11] !called(call.NewSubscription) ==> !did_store(hasBeenResetOnError) && !did_store(hasBeenResetOnCompletion)
 //@   ensures [creates-only-when-none|C11] called(call.NewSubscription) ==> atlock(subject) == nil || atlock(sourceSubscription) == nil
 //@   ensures [source-subscribed-only-by-creator|C11] called(source.SubscribeWithContext) ==> called(call.NewSubscription)
 //@   ensures [source-subscribed-at-most-once|C11] count(source.SubscribeWithContext) <= 1
